@@ -816,6 +816,117 @@ func crashGenSmallRecordsSession(seed uint64, idx int, tier, flavour string) *cr
 	return s
 }
 
+// crashBigLogSeed derives the FIFTH random stream (see crashBigRecordSeed)
+const crashBigLogSeed = 0x6269676c6f673132
+
+// crashBigLogIdx: index of the big-log session of a run with n regular sessions (far behind the other extra sessions)
+func crashBigLogIdx(n int) int { return n + 100 }
+
+// crashGenBigLogSession: the session every run of the flavour sync ends with (index crashBigLogIdx(n), in the quick
+// tier too).  More than 128 MiB (the default size limit of a stand-alone write-ahead log) are logged within ONE
+// memstore generation: a key is overwritten some 34 times with incompressible values of a little more than 4 MiB
+// (memstore limit 1 GiB: no rotation by size), small keys are written before that and overwritten / deleted after it,
+// still in the same generation.  Then a forced rotation, the flush, more acknowledged writes.  The session is NOT
+// traced (the trace of 136 MiB of write calls would take longer than everything else): at each `pause` the child stops
+// itself with all its threads (SIGSTOP), the parent reads the directory - the image a kill at that instant leaves -
+// and lets the child go on (crashRunBigLogSession).  Images: right after the big phase, right after the rotation
+// (the flusher is at work), after the flush, at the end.
+func crashGenBigLogSession(seed uint64, idx int, tier string) *crashSession {
+	r := NewRng(seed^crashBigLogSeed, uint64(idx))
+	s := &crashSession{Idx: idx, Flavour: "sync", Profile: "biglog", MaxStr: 4*1024*1024 + 70000}
+	g := &crashGen{r: r, tier: tier, s: s, current: map[string]bool{}, memKeys: map[string]bool{}, lastRot: map[string]bool{}}
+	nk := 4 + r.Intn(3)
+	for i := 0; i < nk; i++ {
+		k := []byte(fmt.Sprintf("k%d", i+1))
+		if i == nk-1 && r.Chance(40) {
+			k = []byte{0xff, 0x00, 'k', byte(i)}
+		}
+		s.Keys = append(s.Keys, hex.EncodeToString(k))
+	}
+	g.add("open", g.openLine(false, "bigvalue")) // memstore limit 1 GiB: no rotation by size
+	big := g.key()
+	var small []string
+	for _, k := range s.Keys {
+		if k != big {
+			small = append(small, k)
+		}
+	}
+	// before the big phase: small keys (at least two of them)
+	nBefore := 0
+	for i, k := range small {
+		if r.Chance(75) || len(small)-i <= 2-nBefore {
+			g.putKey(k, "small")
+			nBefore++
+		}
+	}
+	// the big phase: more than 128 MiB of log records for one key, now and then a small record in between
+	const limit = 128 * 1024 * 1024
+	logged := 0
+	target := limit + (4+r.Intn(9))*1024*1024
+	for logged < target {
+		n0 := len(s.Ops)
+		g.putKey(big, "mib")
+		logged += s.Ops[n0].Len
+		if r.Chance(8) {
+			g.putKey(small[r.Intn(len(small))], "small")
+		}
+	}
+	g.add("pause", "pause")
+	// after it, same generation: small keys written before are overwritten / deleted (at least one)
+	nAfter := 0
+	for i, k := range small {
+		if !g.memKeys[k] {
+			continue
+		}
+		if r.Chance(70) || (nAfter == 0 && i == len(small)-1) {
+			if r.Chance(35) {
+				kind := "del"
+				if r.Chance(35) {
+					kind = "delb"
+				}
+				o := g.add(kind, kind+" "+k)
+				o.Key, o.KeyTok = k, k
+				delete(g.current, k)
+			} else {
+				g.putKey(k, "small")
+			}
+			nAfter++
+		}
+	}
+	if nAfter == 0 {
+		g.putKey(small[0], "small")
+	}
+	if r.Chance(50) {
+		g.putKey(big, "small") // the big key as well: every one of its 4 MiB versions is older than this
+	}
+	g.rotate()
+	g.add("pause", "pause")
+	g.waitflush()
+	g.add("pause", "pause")
+	// more acknowledged writes (next log file)
+	for i := 1 + r.Intn(3); i > 0; i-- {
+		if r.Chance(25) && len(g.current) > 0 {
+			g.del()
+		} else {
+			g.put("small")
+		}
+	}
+	if r.Chance(50) {
+		g.get()
+	}
+	g.add("pause", "pause")
+	switch r.Intn(3) {
+	case 0:
+		g.add("close", "close")
+	case 1:
+		g.rotate()
+		g.waitflush()
+	default:
+		g.waitflush()
+	}
+	return s
+}
+
 // crashDirectWalSeed derives the FOURTH random stream (see crashBigRecordSeed)
 const crashDirectWalSeed = 0x6469726563747761
 
@@ -1027,3 +1138,138 @@ func (s crashRefState) applyInner(o *crashOp, i int) string {
 }
 
 func (o *crashOp) mutation() bool { return o.isPut() || o.isDel() || o.Kind == "putmany" }
+
+// ---------------------------------------------------------------------------------------------
+// direct-I/O log under the asynchronous database (C13)
+
+// crashDirectAsyncSeed derives the SIXTH random stream (see crashBigRecordSeed)
+const crashDirectAsyncSeed = 0x6469726173796e63
+
+// crashGenDirectAsyncSession: the session every run of the flavour async ends with where O_DIRECT is available (in the
+// quick tier too): the database is opened with EnableAsyncWAL AND EnableDirectIOWAL.  The log writer then collects the
+// records in a block-aligned 4 MiB buffer, writes the WHOLE buffer whenever it is full and once more, zero padded, when
+// the file is closed - which for the database is the rotation.  Each round logs more than the 4 MiB buffer into one log
+// file (incompressible values of some hundred KiB; the log is snappy compressed, compressible values would not fill
+// it), so that the buffer has been filled and reused when the rotation writes the rest: in half of the rounds the rest
+// ends within the first 4 KiB block behind the refill, otherwise anywhere.  Then the rotation and further writes while
+// the flusher writes the table: every image between the rotation and the removal of the rotated log file holds that
+// file as the only copy of the round's writes.  Oracle: that of the flavour async (prefix of the acknowledged
+// mutations, not shorter than what preceded the last completed rotation).
+func crashGenDirectAsyncSession(seed uint64, idx int, tier string) *crashSession {
+	r := NewRng(seed^crashDirectAsyncSeed, uint64(idx))
+	s := &crashSession{Idx: idx, Flavour: "async", Profile: "directio", MaxStr: 4*1024*1024 + 70000}
+	g := &crashGen{r: r, tier: tier, s: s, current: map[string]bool{}, memKeys: map[string]bool{}, lastRot: map[string]bool{}}
+	nk := 5 + r.Intn(3)
+	for i := 0; i < nk; i++ {
+		s.Keys = append(s.Keys, hex.EncodeToString([]byte(fmt.Sprintf("k%d", i+1))))
+	}
+	// memstore limit 1 GiB: rotations are the explicit ones; table writer buffers of at least 4 KiB (the values are
+	// written with one call each anyway)
+	open := fmt.Sprintf("open mem=%d thr=0 max=%d ratio=0 rbuf=%d wbuf=%d async=1 direct=1", 1<<30, 1<<30,
+		[]int{4096, 65536, 4 << 20}[r.Intn(3)], []int{4096, 65536, 4 << 20}[r.Intn(3)])
+	g.add("open", open)
+	const buf = 4 * 1024 * 1024
+	rounds := 1
+	if tier == "thorough" {
+		rounds = 2 + r.Intn(2)
+	}
+	keyBytes := func(k string) []byte { b, _ := hex.DecodeString(k); return b }
+	for round := 0; round < rounds; round++ {
+		off := 8 // bytes of the current log file (file header first)
+		small := func() {
+			n0 := len(s.Ops)
+			g.put("small")
+			o := s.Ops[n0]
+			v, _ := hex.DecodeString(o.ValTok)
+			off += crashWalPutRecordLen(keyBytes(o.Key), v)
+		}
+		for i := r.Intn(3); i > 0; i-- {
+			small()
+		}
+		// where the file is to end: k buffers and a rest
+		k := 1
+		if tier == "thorough" && r.Chance(30) {
+			k = 2
+		}
+		rest := 1 + r.Intn(4000) // within the first block behind the refill
+		if r.Chance(50) {
+			rest = 4097 + r.Intn(1500000)
+		}
+		target := k*buf + rest
+		bigPut := func(n int, aim int) {
+			g.seedCtr++
+			vs := r.Next()%1000000007 + g.seedCtr
+			key := g.key()
+			kb := keyBytes(key)
+			if aim > 0 {
+				// choose the length so that the record ends at `aim` (the compressor adds a few bytes per 64 KiB)
+				n = aim - off - 40
+				for try := 0; try < 6 && n > 0; try++ {
+					miss := off + crashWalPutRecordLen(kb, crashGenBytes(vs, n)) - aim
+					if miss == 0 {
+						break
+					}
+					n -= miss
+				}
+				if n < 1 {
+					n = 1
+				}
+			}
+			kind := "put"
+			if r.Chance(35) {
+				kind = "putb"
+			}
+			tok := fmt.Sprintf("g%d:%d", vs, n)
+			val := crashGenBytes(vs, n)
+			o := g.add(kind, kind+" "+key+" "+tok)
+			o.Key, o.KeyTok, o.ValTok, o.Digest, o.Len = key, key, tok, crashDigest(val), n
+			g.current[key] = true
+			g.memKeys[key] = true
+			off += crashWalPutRecordLen(kb, val)
+		}
+		for target-off > 1000000 {
+			bigPut(300000+r.Intn(600000), 0)
+			if r.Chance(25) {
+				small()
+			}
+			if r.Chance(10) && len(g.current) > 0 {
+				g.del()
+				off += 40
+			}
+		}
+		// two more values: the first leaves between 100 KiB and 500 KiB, the second is aimed
+		if target-off > 600000 {
+			bigPut(target-off-100000-r.Intn(400000), 0)
+		}
+		bigPut(0, target)
+		if r.Chance(30) {
+			small() // a few more bytes behind the aimed end
+		}
+		g.rotate()
+		// writes racing with the flush of the rotated memstore (they go into the next log file, which has no byte on disk
+		// before its first full buffer or its close)
+		for i := 1 + r.Intn(2); i > 0; i-- {
+			g.put("small")
+		}
+		if r.Chance(40) {
+			g.get()
+		}
+		if round < rounds-1 || r.Chance(60) {
+			g.waitflush()
+		}
+	}
+	switch r.Intn(3) {
+	case 0:
+		// a second, short log file is rotated away (less than one buffer: written once, zero padded)
+		g.rotate()
+		g.waitflush()
+	case 1:
+		g.add("close", "close")
+		g.add("open", open)
+		g.get()
+		g.waitflush()
+	default:
+		g.waitflush()
+	}
+	return s
+}
